@@ -173,6 +173,9 @@ def _execute(job):
         elif ep == "err_out_glob":
             rc, out, err = cli(fl + ["-o", "out.md", "*.md"])
             side = out == ""
+        elif ep == "err_inplace_file_stdin":
+            rc, out, err = cli(fl + ["--inplace", "a.md", "-"], PROBE)
+            side = out == ""
         elif ep == "err_inplace_stdin":
             rc, out, err = cli(fl + ["--inplace", "-"], PROBE)
             side = out == ""
